@@ -677,6 +677,10 @@ class Sim(object):
                         self.submit(ls[0], self.payload(1, self.next_cid))
                         if not no_force:
                             self.nodes[ls[0]].forceLogCompaction()
+                elif mode == 3 and F in self.nodes and F in self.voters:
+                    # the node that is catching up loses patience and campaigns: its term rises, what the leader
+                    # sends in the old term is ignored, the leader has to be elected again
+                    self.tick_node(F, 3.0)
             self.check(light=True)
             if self.viol:
                 break
